@@ -137,7 +137,7 @@ class SigmaCorrelationCondition:
                 cond_op = SigmaCorrelationConditionOperator[op.upper()]
                 try:
                     cond_count = int(d[op])
-                except (ValueError, TypeError):
+                except (ValueError, TypeError, OverflowError):
                     raise sigma_exceptions.SigmaCorrelationConditionError(
                         f"'{ d[op] }' is no valid Sigma correlation condition count", source=source
                     )
@@ -154,7 +154,7 @@ class SigmaCorrelationCondition:
             cond_percentile = int(d["percentile"])
         except KeyError:
             cond_percentile = None
-        except (ValueError, TypeError):
+        except (ValueError, TypeError, OverflowError):
             raise sigma_exceptions.SigmaCorrelationConditionError(
                 f"'{ d['percentile'] }' is no valid Sigma correlation condition percentile",
                 source=source,
@@ -565,7 +565,9 @@ class SigmaCorrelationRule(SigmaRuleBase, ProcessingItemTrackingMixin):
             if isinstance(rules_value, str):
                 # Simple rule reference
                 rules = [SigmaRuleReference(rules_value)]
-            elif isinstance(rules_value, list):
+            elif isinstance(rules_value, list) and all(
+                isinstance(rule, str) for rule in rules_value
+            ):
                 rules = [SigmaRuleReference(rule) for rule in rules_value]
             else:
                 errors.append(
